@@ -15,6 +15,7 @@ import (
 	"os"
 	"path/filepath"
 	"runtime"
+	"slices"
 	"sort"
 	"strings"
 	"testing"
@@ -817,6 +818,8 @@ func vc20OutsideWorld(step, errText string) (ok bool) {
 
 // vc20Checker evaluates cases.
 type vc20Checker struct {
+	tb testing.TB
+
 	// variants are the servers of generated server groups; drawnClasses are
 	// the labels of the last drawn protocol set.
 	variants     []*vc20ServerVariant
@@ -836,6 +839,7 @@ func vc20NewChecker(t *testing.T, st *vstat.Stats) (ck *vc20Checker) {
 
 	fx := vc20NewFixture(t)
 	ck = &vc20Checker{
+		tb:       t,
 		fx:       fx,
 		st:       st,
 		reqs:     vc20Requirements(),
@@ -853,6 +857,10 @@ func vc20NewChecker(t *testing.T, st *vstat.Stats) (ck *vc20Checker) {
 	// Bound to the fixture, it must be accepted, satisfy every requirement and
 	// serve.
 	c, parseErr, valErr, panicked := ck.vc20Load(fx.base)
+	if c != nil {
+		fx.baseIfaces = fx.vc20BasePorts(c.InterfaceListeners)
+	}
+
 	if panicked != "" || parseErr != nil || valErr != nil {
 		t.Fatalf("the distributed configuration is not accepted: parse %v, validate %v, panic %q", parseErr, valErr, panicked)
 	}
@@ -864,6 +872,17 @@ func vc20NewChecker(t *testing.T, st *vstat.Stats) (ck *vc20Checker) {
 	}
 
 	o := fx.vc20Exercise(c)
+	for range 2 {
+		if !o.realListenerFailed {
+			break
+		}
+
+		// See vc20EvalClasses: what the configuration causes repeats.
+		c, _, _, _ = ck.vc20Load(fx.base)
+		fx.baseIfaces = fx.vc20BasePorts(c.InterfaceListeners)
+		o = fx.vc20Exercise(c)
+	}
+
 	if len(o.failures) > 0 {
 		t.Fatalf("the distributed configuration cannot be exercised:\n  %s", strings.Join(o.failures, "\n  "))
 	}
@@ -888,6 +907,8 @@ func vc20NewChecker(t *testing.T, st *vstat.Stats) (ck *vc20Checker) {
 // vc20Load renders the tree, parses and validates it with the package's own
 // code.
 func (ck *vc20Checker) vc20Load(tree yaml.MapSlice) (c *configuration, parseErr, valErr error, panicked string) {
+	tree, _ = vc20Copy(tree).(yaml.MapSlice)
+	ck.fx.vc20FreshPorts(ck.tb, tree)
 	text, err := yaml.Marshal(tree)
 	if err != nil {
 		return nil, fmt.Errorf("harness: marshalling: %w", err), nil, ""
@@ -967,6 +988,11 @@ func (ck *vc20Checker) vc20EvalClasses(t vc20T, muts []vc20Mutation, pair bool, 
 	c, parseErr, valErr, panicked := ck.vc20Load(tree.(yaml.MapSlice))
 	outcome := ""
 	defer func() {
+		if slices.Contains(extra, "valid-pair") && !strings.HasPrefix(outcome, "accepted") {
+			classes = append(classes, "valid-pair-"+outcome)
+			t.Logf("C20 note: a pair of valid alternatives is %s: parse error %v, validation error %v\n    %s", outcome, parseErr, valErr, caseText)
+		}
+
 		st.Case(ntKey, append(classes, outcome)...)
 		if st.WantSample() && ck.n%97 == 1 {
 			st.Sample(map[string]any{"mutations": descr, "outcome": outcome, "parse_error": fmt.Sprint(parseErr), "validate_error": fmt.Sprint(valErr)})
@@ -1018,12 +1044,23 @@ func (ck *vc20Checker) vc20EvalClasses(t vc20T, muts []vc20Mutation, pair bool, 
 		// causes every time: the exercise is repeated with fresh listeners and
 		// the second outcome counts.
 		classes = append(classes, "real-listener-failure-rechecked")
+		if c2, perr, _, pan := ck.vc20Load(tree.(yaml.MapSlice)); c2 != nil && perr == nil && pan == "" {
+			// Loaded again, the interface listeners get other ports.
+			c = c2
+		}
+
 		o = ck.fx.vc20Exercise(c)
 	}
 
 	classes = append(classes, o.classes...)
 	if o.timeouts > 0 {
 		classes = append(classes, "had-timeouts")
+	}
+
+	started := vc20StartedClasses(c, o)
+	classes = append(classes, started...)
+	if len(started) > 0 && slices.Contains(extra, "valid-pair") {
+		classes = append(classes, "valid-pair-started-and-queried")
 	}
 
 	for _, cl := range o.classes {
@@ -1459,6 +1496,236 @@ func TestVerifC20DisabledSections(t *testing.T) {
 						ck.vc20Eval(col, []vc20Mutation{{field: sw, val: vs}, {field: f, val: vf}}, false)
 					})
 				}
+			}
+		}
+	}
+
+	st.Extra("goroutines_at_end", runtime.NumGoroutine())
+	st.Extra("queries_that_reached_the_loopback_upstream", ck.fx.upsCount.Load())
+	col.report()
+}
+
+// vc20StartedClasses labels an accepted configuration whose plain-DNS servers
+// were really started and answered over UDP and TCP.
+func vc20StartedClasses(c *configuration, o *vc20Outcome) (classes []string) {
+	full, plain, ifaces := false, false, false
+	for _, cl := range o.classes {
+		switch cl {
+		case "exercise-full":
+			full = true
+		case "btd-real-answered-tcp":
+			plain, ifaces = true, true
+		case "dns-real-answered":
+			plain = true
+		}
+	}
+
+	if !full || !plain || len(o.failures) > 0 {
+		return nil
+	}
+
+	classes = append(classes, "plain-dns-started-and-queried")
+	if ifaces && !c.RateLimit.ConnectionLimit.Enabled {
+		classes = append(classes, "pair:connection_limit.enabled=false×bind_interfaces")
+	}
+
+	if ifaces && c.RateLimit.ConnectionLimit.Enabled {
+		classes = append(classes, "pair:connection_limit.enabled=true×bind_interfaces")
+	}
+
+	if !ifaces && !c.RateLimit.ConnectionLimit.Enabled {
+		classes = append(classes, "pair:connection_limit.enabled=false×bind_addresses")
+	}
+
+	return classes
+}
+
+// vc20Alternative is a valid alternative to what the distributed example has:
+// the other value of a flag, another documented value of an enumeration, or
+// another form of a section.
+type vc20Alternative struct {
+	// dim is what the alternative is an alternative of; two alternatives of
+	// one dimension are not combined.
+	dim  string
+	name string
+	muts []vc20Mutation
+}
+
+// vc20Alternatives lists the valid alternatives.
+func (fx *vc20Fixture) vc20Alternatives(tb testing.TB) (alts []*vc20Alternative) {
+	find := func(name string) (f *vc20Field) {
+		for _, f = range fx.fields {
+			if f.name == name {
+				return f
+			}
+		}
+
+		tb.Fatalf("fixture: no field %s in the catalogue", name)
+
+		return nil
+	}
+
+	set := func(name, class string, v any) (m vc20Mutation) {
+		return vc20Mutation{field: find(name), val: vc20Value{class: class, v: v}}
+	}
+
+	// Every flag the other way; every enumeration with its other documented
+	// values (the protocols of the servers are forms, below).
+	valid := map[string][]string{
+		"cache.type":               {"simple", "ecs"},
+		"ratelimit.allowlist.type": {"backend", "consul"},
+		"check.kv.type":            {"backend", "cache", "consul", "redis"},
+	}
+	for _, f := range fx.fields {
+		switch {
+		case !vc20IsSwitch(f):
+			continue
+		case f.kind == vc20KindBool:
+			for _, v := range fx.vc20SwitchValues(f) {
+				alts = append(alts, &vc20Alternative{
+					dim:  f.name,
+					name: fmt.Sprintf("%s=%v", f.name, v.v),
+					muts: []vc20Mutation{{field: f, val: v}},
+				})
+			}
+		default:
+			for _, e := range valid[f.name] {
+				if e == f.orig {
+					continue
+				}
+
+				alts = append(alts, &vc20Alternative{
+					dim:  f.name,
+					name: f.name + "=" + e,
+					muts: []vc20Mutation{{field: f, val: vc20Value{class: "other-enum", v: e}}},
+				})
+			}
+		}
+	}
+
+	// Other forms of sections.
+	vars := map[string]*vc20ServerVariant{}
+	for _, v := range fx.vc20ServerVariants(tb) {
+		vars[v.name] = v
+	}
+
+	servers := func(names ...string) (m vc20Mutation) {
+		var list []any
+		for _, n := range names {
+			list = append(list, vc20Copy(vars[n].node))
+		}
+
+		return set("server_groups.0.servers", "protocol-set", list)
+	}
+
+	missing := vc20Missing{}
+	forms := []*vc20Alternative{{
+		dim: "servers", name: "dns server bound by bind_addresses",
+		muts: []vc20Mutation{servers("dns-addrs", "tls", "https", "quic", "dnscrypt-file", "dnscrypt-inline")},
+	}, {
+		dim: "servers", name: "dns server bound by bind_addresses, no interface_listeners",
+		muts: []vc20Mutation{
+			servers("dns-addrs", "tls", "https", "quic", "dnscrypt-file", "dnscrypt-inline"),
+			set("interface_listeners", "missing", missing),
+		},
+	}, {
+		dim: "servers", name: "both dns servers: bind_interfaces and bind_addresses",
+		muts: []vc20Mutation{servers("dns-ifaces", "dns-addrs", "tls")},
+	}, {
+		dim: "servers", name: "dns (bind_interfaces) and dnscrypt only, no tls section",
+		muts: []vc20Mutation{servers("dns-ifaces", "dnscrypt-file"), set("server_groups.0.tls", "missing", missing)},
+	}, {
+		dim: "servers", name: "dns (bind_addresses) only, no tls section, no interface_listeners",
+		muts: []vc20Mutation{
+			servers("dns-addrs"),
+			set("server_groups.0.tls", "missing", missing),
+			set("interface_listeners", "missing", missing),
+		},
+	}, {
+		dim: "servers", name: "dns (bind_interfaces) and quic only",
+		muts: []vc20Mutation{servers("dns-ifaces", "quic")},
+	}, {
+		dim: "upstream.fallback", name: "one fallback server",
+		muts: []vc20Mutation{set("upstream.fallback.servers.1", "missing", missing)},
+	}, {
+		dim: "upstream.servers", name: "one upstream server",
+		muts: []vc20Mutation{set("upstream.servers.1", "missing", missing)},
+	}, {
+		dim: "web", name: "no web section",
+		muts: []vc20Mutation{set("web", "missing", missing)},
+	}, {
+		dim: "cache.size", name: "cache.size=0 (no cache)",
+		muts: []vc20Mutation{set("cache.size", "zero", 0)},
+	}, {
+		dim: "ddr.records", name: "ddr without device records",
+		muts: []vc20Mutation{set("server_groups.0.ddr.device_records", "missing", missing)},
+	}, {
+		dim: "tls.session_keys", name: "tls without session keys",
+		muts: []vc20Mutation{set("server_groups.0.tls.session_keys", "missing", missing)},
+	}, {
+		dim: "tls.device_id_wildcards", name: "tls without device id wildcards",
+		muts: []vc20Mutation{set("server_groups.0.tls.device_id_wildcards", "missing", missing)},
+	}, {
+		dim: "filtering_group", name: "server group with the non_filtering group",
+		muts: []vc20Mutation{set("server_groups.0.filtering_group", "other-ref", "non_filtering")},
+	}, {
+		dim: "backend.timeout", name: "backend.timeout=0s (no timeout)",
+		muts: []vc20Mutation{set("backend.timeout", "zero", "0s")},
+	}}
+
+	return append(alts, forms...)
+}
+
+// TestVerifC20ValidPairs enumerates every valid alternative and every pair of
+// valid alternatives of different sections: each flag both ways, the other
+// documented values of the enumerations, and the forms of sections that the
+// distributed example does not use (servers bound by addresses instead of
+// interfaces, groups without tls users and without a tls section, one upstream,
+// no web section, no cache ...).  Every accepted file goes through the whole
+// start-up, nothing of it being skipped, including the start of the real
+// listeners (those bound to interfaces behind the real bind-to-device manager)
+// and UDP and TCP queries to the started plain-DNS servers.
+func TestVerifC20ValidPairs(t *testing.T) {
+	st := vstat.New("C20", "cmd.validpairs", "bounded-exhaustive: every valid alternative (flag the other way, other documented enum value, other form of a section) alone and every pair of alternatives of different sections; full start-up incl. real listeners for every accepted file; "+vc20Rule,
+		"accepted", "exercise-full", "valid-pair-started-and-queried", "client-ipv4-mapped", "ddr-query-served",
+		"pair:connection_limit.enabled=false×bind_interfaces", "pair:connection_limit.enabled=false×bind_addresses",
+		"pair:connection_limit.enabled=true×bind_interfaces",
+		"btd-real-answered-udp", "btd-real-answered-tcp", "dns-real-answered", "dot-real-answered", "doh-real-answered", "doq-real-answered", "dnscrypt-real-answered")
+	st.SetExhaustive()
+	st.Finish(t)
+
+	ck := vc20NewChecker(t, st)
+	ck.fx.forceFull = true
+	col := &vc20Collector{t: t}
+	sh := vc20NewShard()
+	alts := ck.fx.vc20Alternatives(t)
+	st.Extra("valid_alternatives", len(alts))
+	if os.Geteuid() != 0 {
+		st.Extra("interface_listeners_not_started", "SO_BINDTODEVICE needs root")
+	}
+
+	run := func(members ...*vc20Alternative) {
+		if !sh.mine() {
+			return
+		}
+
+		var muts []vc20Mutation
+		for _, a := range members {
+			muts = append(muts, a.muts...)
+		}
+
+		col.run(func() { ck.vc20EvalClasses(col, muts, false, []string{"valid-pair"}) })
+	}
+
+	for i, a := range alts {
+		run(a)
+		for _, b := range alts[i+1:] {
+			// Two flags of filtering groups have nothing to do with each
+			// other or with the start-up: such pairs are left to the thorough
+			// tier.
+			bothFiltering := strings.HasPrefix(a.dim, "filtering_groups.") && strings.HasPrefix(b.dim, "filtering_groups.")
+			if a.dim != b.dim && (!bothFiltering || vstat.Thorough()) {
+				run(a, b)
 			}
 		}
 	}
